@@ -776,7 +776,11 @@ class KlongInterpreter():
         if cached is None:
             i, prog = self.prog(x)
             cached = prog[0] if len(prog) == 1 else prog
-            self._parse_cache[cache_key] = cached
+            # Parsing .module(...) switches the active module as a side effect. A text
+            # that leaves another module active than it found is parsed again every
+            # time: served from the cache it would not switch the module.
+            if self._module == cache_key[1]:
+                self._parse_cache[cache_key] = cached
 
         # Try compiled path (single expressions only)
         if type(cached) is not list:
